@@ -1096,7 +1096,7 @@ func c06Target(w *World, r *Result) {
 			continue
 		}
 		var parse *ssa.Call
-		var firstConv ssa.Instruction
+		var convUses []ssa.Instruction
 		for _, b := range fn.Blocks {
 			for _, ins := range b.Instrs {
 				switch x := ins.(type) {
@@ -1104,46 +1104,107 @@ func c06Target(w *World, r *Result) {
 					if callee := x.Call.StaticCallee(); callee != nil && callee.Name() == "Parse" && pkgOf(callee) == w.Pkgs["parser"].Types {
 						parse = x
 					}
-					if x.Call.IsInvoke() && firstConv == nil {
-						firstConv = x
+					if x.Call.IsInvoke() {
+						convUses = append(convUses, x)
 					}
-					if callee := x.Call.StaticCallee(); callee != nil && pkgOf(callee) == w.Pkgs["transpiler"].Types && callee.Signature.Recv() != nil && firstConv == nil && callee.Name() != "Transpile" {
-						firstConv = x
+					if callee := x.Call.StaticCallee(); callee != nil && pkgOf(callee) == w.Pkgs["transpiler"].Types && callee.Signature.Recv() != nil && callee.Name() != "Transpile" {
+						convUses = append(convUses, x)
 					}
 				case *ssa.Store:
-					if _, ok := x.Val.(*ssa.Parameter); ok && firstConv == nil {
+					if _, ok := x.Val.(*ssa.Parameter); ok {
 						if _, isFA := x.Addr.(*ssa.FieldAddr); isFA {
-							firstConv = x
+							convUses = append(convUses, x)
 						}
 					}
 				}
 			}
 		}
 		key := "target:parse-first"
-		if parse == nil || firstConv == nil {
+		if parse == nil || len(convUses) == 0 {
 			r.Bad(rule, key, w.Pos(fn.Pos()), "Transpile no longer parses before using the converter")
 			continue
 		}
-		// the non-error branch of Parse's error check dominates the first converter use
-		ok := false
+		// no use of the converter is reachable from the Parse call on a path on which Parse's
+		// error is non-nil: the paths are followed under that assumption (tests of the error,
+		// or of a merged error variable that still holds it, take their non-nil branch only)
+		var perr ssa.Value
 		for _, ref := range *parse.Referrers() {
-			ex, isEx := ref.(*ssa.Extract)
-			if !isEx || ex.Index != 1 {
-				continue
+			if ex, isEx := ref.(*ssa.Extract); isEx && ex.Index == 1 {
+				perr = ex
 			}
-			for _, r2 := range *ex.Referrers() {
-				bo, isBo := r2.(*ssa.BinOp)
-				if !isBo {
-					continue
+		}
+		ok := perr != nil
+		useAt := map[*ssa.BasicBlock]bool{}
+		for _, u := range convUses {
+			useAt[u.Block()] = true
+			if u.Block() == parse.Block() {
+				ok = false
+			}
+		}
+		if ok {
+			type state struct {
+				b  *ssa.BasicBlock
+				eq string
+			}
+			seen := map[state]bool{}
+			var walk func(b *ssa.BasicBlock, eq map[ssa.Value]bool)
+			walk = func(b *ssa.BasicBlock, eq map[ssa.Value]bool) {
+				var ks []string
+				for v := range eq {
+					ks = append(ks, v.Name())
 				}
-				for _, r3 := range *bo.Referrers() {
-					if ifi, isIf := r3.(*ssa.If); isIf {
-						if ifi.Block().Succs[1].Dominates(firstConv.Block()) && leadsToErrorReturn(ifi.Block().Succs[0], 0) {
-							ok = true
+				sort.Strings(ks)
+				st := state{b, strings.Join(ks, ",")}
+				if seen[st] || !ok {
+					return
+				}
+				seen[st] = true
+				if useAt[b] && b != parse.Block() {
+					ok = false
+					return
+				}
+				succs := b.Succs
+				if len(b.Instrs) > 0 {
+					if ifi, isIf := b.Instrs[len(b.Instrs)-1].(*ssa.If); isIf {
+						if bo, isBo := ifi.Cond.(*ssa.BinOp); isBo && (bo.Op == token.NEQ || bo.Op == token.EQL) {
+							v, other := bo.X, bo.Y
+							if k, isK := v.(*ssa.Const); isK && k.IsNil() {
+								v, other = other, v
+							}
+							if k, isK := other.(*ssa.Const); isK && k.IsNil() && eq[v] {
+								if bo.Op == token.NEQ {
+									succs = b.Succs[:1]
+								} else {
+									succs = b.Succs[1:]
+								}
+							}
 						}
 					}
 				}
+				for _, sc := range succs {
+					eq2 := map[ssa.Value]bool{}
+					for v := range eq {
+						eq2[v] = true
+					}
+					for _, ins := range sc.Instrs {
+						ph, isPhi := ins.(*ssa.Phi)
+						if !isPhi {
+							break
+						}
+						for i, p := range sc.Preds {
+							if p == b {
+								if eq[ph.Edges[i]] {
+									eq2[ph] = true
+								} else {
+									delete(eq2, ph)
+								}
+							}
+						}
+					}
+					walk(sc, eq2)
+				}
 			}
+			walk(parse.Block(), map[ssa.Value]bool{perr: true})
 		}
 		if ok {
 			r.Ok(rule, key, w.Pos(parse.Pos()), "the converter is first touched on the non-error branch of Parse: parse errors are target independent")
